@@ -110,6 +110,34 @@ def d2(run: Run, prog: Program):
         evs = list(iter_events(t))
         wrote = any(e.kind in ("write", "assign") and e.cell == "_observable" for e in evs)
         bumped = any(e.kind == "bump" and e.cell == "_mut_window" for e in evs)
+        if not wrote:
+            # the base setter handed to a private helper as a function value:
+            # `self._apply(Data.set_window, window)` with `fn(self, *args)` inside
+            for c in ast.walk(m.node):
+                if not (isinstance(c, ast.Call) and isinstance(c.func, ast.Attribute) and
+                        isinstance(c.func.value, ast.Name) and
+                        c.func.value.id == (m.params[0] if m.params else "self")):
+                    continue
+                h = prog.lookup(cd, c.func.attr)
+                if h is None or not h.name.startswith("_") or len(h.params) < 2:
+                    continue
+                for pos, a in enumerate(c.args):
+                    if isinstance(a, ast.Attribute) and isinstance(a.value, ast.Name) and \
+                            a.value.id in prog.classes and \
+                            prog.is_subclass(cd, a.value.id) and \
+                            a.attr in ("set_window", "set_global_window") and \
+                            pos + 1 < len(h.params):
+                        pname = h.params[pos + 1]
+                        base = prog.lookup(prog.classes[a.value.id], a.attr)
+                        if base is not None and any(
+                                isinstance(k, ast.Call) and isinstance(k.func, ast.Name)
+                                and k.func.id == pname and k.args and
+                                isinstance(k.args[0], ast.Name) and
+                                k.args[0].id == h.params[0] for k in ast.walk(h.node)):
+                            bt = prog.tree(base, prog.classes[a.value.id], {})
+                            wrote = wrote or any(
+                                e.kind in ("write", "assign") and e.cell == "_observable"
+                                for e in iter_events(bt))
         ok = wrote and bumped
         run.oblige("D2", f"ClimateData.{mname}", ok, sample={
             "where": m.where, "rewrites_view": wrote, "bumps": bumped})
